@@ -58,7 +58,7 @@ _PLAIN_BUILTINS = {"len", "bytes", "int", "str", "bool", "list", "tuple", "dict"
                    "bytearray", "abs", "iter", "next", "callable", "id", "hash", "vars", "dir", "map", "filter", "ord", "chr"}
 
 
-_SPEC_BUILTINS = {"HASH", "UUID5", "HEX", "ENC", "utf8", "TAG", "NAMESPACE_DNS", "UNHEX", "FILE", "TEXTFILE", "EXISTS", "HEXMAP", "HEX_PUT", "HEX_EMPTY", "HEX_MERGE", "HEX_TOBIN", "HEX_MIN", "HEX_MAX", "HEX_OVERLAP", "HEX_ISEMPTY", "HEX_FILE_OK", "in_version_grammar"}
+_SPEC_BUILTINS = {"HASH", "UUID5", "HEX", "ENC", "utf8", "TAG", "NAMESPACE_DNS", "UNHEX", "FILE", "TEXTFILE", "EXISTS", "HEXMAP", "HEX_PUT", "HEX_EMPTY", "HEX_MERGE", "HEX_TOBIN", "HEX_MIN", "HEX_MAX", "HEX_OVERLAP", "HEX_ISEMPTY", "HEX_FILE_OK", "in_version_grammar", "AESGCM_ENC", "KEYS_DIR", "pathstr"}
 
 
 def builtin_name(it, name):
@@ -209,6 +209,14 @@ def bytes_len(b: VBytes) -> VInt:
     return VInt(len(b.conc)) if b.conc is not None else VInt(z3.Length(b.e))
 
 
+def bytes_len_k(it, b: VBytes) -> VInt:
+    """Length, using syntactic knowledge of concrete lengths where available."""
+    if b.conc is not None:
+        return VInt(len(b.conc))
+    k = it.known_lens.get(b.e.sexpr())
+    return VInt(k) if k is not None else VInt(z3.Length(b.e))
+
+
 def str_len(s: VStr) -> VInt:
     return VInt(len(s.conc)) if s.conc is not None else VInt(z3.Length(s.e))
 
@@ -248,6 +256,7 @@ def rep_bytes(it, byte: int, count: VInt) -> VBytes:
 def hash_term(it, name: str, size: int, data: VBytes) -> VBytes:
     t = HASH(z3.StringVal(name), z3.IntVal(size), data.e)
     it.assume(z3.Length(t) == size)
+    it.known_lens[t.sexpr()] = size
     note(it, "hashes.Hash")
     return VBytes(t)
 
@@ -792,6 +801,8 @@ def _clamp_slice(it, lo, hi, length: VInt):
                 v = max(v + length.conc, 0)
             return VInt(min(v, length.conc))
         if x.conc is not None and x.conc >= 0:
+            if x.conc == 0 or it.must(length.e >= x.conc):
+                return VInt(x.conc)  # the bound is provably within the sequence: no clamping term
             return VInt(z3.If(length.e < x.conc, length.e, z3.IntVal(x.conc)))
         e = x.e
         e = z3.If(e < 0, z3.If(e + length.e < 0, 0, e + length.e), z3.If(e > length.e, length.e, e))
@@ -832,7 +843,8 @@ def _slice_concat(it, obj: VBytes, lo, hi):
         return None
     sums = [z3.IntVal(0)]
     for p in parts:
-        sums.append(z3.simplify(sums[-1] + z3.Length(p)))
+        kl = it.known_lens.get(p.sexpr())
+        sums.append(z3.simplify(sums[-1] + (z3.IntVal(kl) if kl is not None else z3.Length(p))))
     def boundary(t):
         if t is None:
             return None
@@ -868,6 +880,11 @@ def getslice(it, obj, lo, hi, step):
         a, b = _clamp_slice(it, lo, hi, n)
         if obj.conc is not None and a.conc is not None and b.conc is not None:
             return VBytes(obj.conc[a.conc:b.conc])
+        if a.conc is not None and b.conc is not None:
+            r = VBytes(z3.simplify(z3.SubSeq(obj.e, z3.IntVal(a.conc), z3.IntVal(max(b.conc - a.conc, 0)))))
+            it.known_lens[r.e.sexpr()] = max(b.conc - a.conc, 0)
+            it.assume(z3.Length(r.e) == max(b.conc - a.conc, 0))
+            return r
         ln = VInt(z3.If(b.e - a.e > 0, b.e - a.e, 0))
         return VBytes(z3.simplify(z3.SubSeq(obj.e, a.e, ln.e)))
     if isinstance(obj, VStr):
